@@ -109,6 +109,12 @@ def run(F, res, tier):
     res.ob("N2", "edit-set-from-usage-search", "the edit set is def.usages(sema).in_scope(package graph).all()",
            all(w in chain for w in want), where=rn.loc(), how="calls: %s" % [c for c in chain if c in want])
 
+    # the search behind the edit set covers the whole package graph (shared with C06/R5)
+    from rules import c06
+    c06.search_scope_rules(F, res)
+    # a qualified type name is classified through its qualifier (else renaming one of two equally named types edits the other)
+    from rules import c05
+    c05.qualifier_first(F, res)
     # ---- N3
     find_def = F.fn(c08.FIND_DEF)
     for name in (c08.RENAME, c08.PREPARE):
